@@ -49,6 +49,10 @@ enum Op {
     DropHandle(usize),
     Inject(usize, u32),
     Terminate,
+    /// like Terminate, through SIGINT's arm
+    Interrupt,
+    /// a signal that must not stop anything: 0 Hangup, 1 UserDefined1, 2 UserDefined2, 3 Alarm
+    Nudge(u32),
     /// end of `RuntimeSetup::setup`
     EndSetup,
 }
@@ -70,6 +74,8 @@ fn op_to_string(op: &Op) -> String {
         Op::DropHandle(s) => format!("D{s}"),
         Op::Inject(a, n) => format!("I{a}/{n}"),
         Op::Terminate => "T".into(),
+        Op::Interrupt => "N".into(),
+        Op::Nudge(k) => format!("H{k}"),
         Op::EndSetup => "|".into(),
     }
 }
@@ -100,6 +106,8 @@ fn op_from_string(s: &str) -> Option<Op> {
             Some(Op::Inject(v.first().copied()?? as usize, v.get(1).copied()??))
         }
         "T" => Some(Op::Terminate),
+        "N" => Some(Op::Interrupt),
+        "H" => Some(Op::Nudge(rest.parse().ok()?)),
         "|" => Some(Op::EndSetup),
         _ => None,
     }
@@ -206,9 +214,23 @@ fn gen_scenario(r: &mut Rng, late: bool) -> Vec<Op> {
             (1..nodes.len()).filter(|&i| nodes[i].sup && nodes[i].handle && !nodes[i].stopping).collect();
         if choice < 88 && !subs.is_empty() {
             let s = *r.pick(&subs);
-            ops.push(Op::Stop(s, r.chance(1, 3)));
+            ops.push(Op::Stop(s, !late && r.chance(1, 3)));
             nodes[s].stopping = true;
             nodes[s].handle = false;
+            if late && r.chance(2, 3) {
+                // register something below the supervisor that is being stopped, at a random distance
+                let below: Vec<usize> = (0..nodes.len())
+                    .filter(|&i| i != s && i != 0 && nodes[i].sup && nodes[i].handle && stopping_chain(&nodes, i))
+                    .collect();
+                if !below.is_empty() {
+                    ops.push(Op::Yield(r.below(9) as u32));
+                    let p = *r.pick(&below);
+                    ops.push(Op::SpawnActor(p, rand_beh(r)));
+                    let d = nodes[p].depth + 1;
+                    nodes.push(G { sup: false, parent: Some(p), depth: d, stopping: false, handle: false });
+                    actors += 1;
+                }
+            }
             continue;
         }
         if choice < 91 && !subs.is_empty() {
@@ -218,9 +240,13 @@ fn gen_scenario(r: &mut Rng, late: bool) -> Vec<Op> {
             continue;
         }
         if choice < 95 && !in_setup && !terminated {
-            ops.push(Op::Terminate);
+            ops.push(if r.chance(1, 3) { Op::Interrupt } else { Op::Terminate });
             terminated = true;
             nodes[0].stopping = true;
+            continue;
+        }
+        if choice < 97 && !in_setup && !terminated {
+            ops.push(Op::Nudge(r.below(4) as u32));
             continue;
         }
         let acts: Vec<usize> = (0..nodes.len()).filter(|&i| !nodes[i].sup).collect();
@@ -332,7 +358,8 @@ impl World {
                 actors.push(i);
                 if !f.cleaned.load(Ordering::SeqCst) {
                     found.push(Finding { what: "actor-cleanup-not-run".into(), node: i, sup: s, late: w.nodes[i].late });
-                } else if !f.dropped.load(Ordering::SeqCst) {
+                } else if !f.dropped.load(Ordering::SeqCst) && !MT.load(Ordering::SeqCst) {
+                    // (on worker threads the actor value is dropped just after its receiver)
                     found.push(Finding { what: "actor-task-alive".into(), node: i, sup: s, late: w.nodes[i].late });
                 }
             }
@@ -430,6 +457,12 @@ impl SignalHandler for Handler {
             self.world.log(Evt::Term);
         }
     }
+    fn interrupt(&mut self) -> impl Future<Output = ()> + Send {
+        async {
+            self.world.mark_stopping(0);
+            self.world.log(Evt::Term);
+        }
+    }
 }
 
 /// Bounded wait, in scheduler rounds: on the single-threaded runtime one `yield_now` of the waiter
@@ -438,6 +471,16 @@ impl SignalHandler for Handler {
 const ROUNDS: u32 = 20_000;
 
 async fn wait_until(mut done: impl FnMut() -> bool) -> bool {
+    if MT.load(Ordering::SeqCst) {
+        // worker threads: rounds mean nothing, wait in real time (legitimate cases take milliseconds)
+        for _ in 0..30_000 {
+            if done() {
+                return true;
+            }
+            tokio::time::sleep(Duration::from_millis(1)).await;
+        }
+        return done();
+    }
     for _ in 0..ROUNDS {
         if done() {
             return true;
@@ -497,6 +540,10 @@ impl Ctx {
                 }
             }
             Op::SpawnActor(p, beh) => {
+                let available = if *p == 0 { primary.is_some() } else { self.handles.lock().unwrap().contains_key(p) };
+                if !available {
+                    return;
+                }
                 let flags = Arc::new(Flags::default());
                 let (tx, rx) = mpsc::channel(64);
                 for _ in 0..beh.msgs {
@@ -555,10 +602,23 @@ impl Ctx {
                     }
                 }
             }
-            Op::Terminate => {
+            Op::Terminate | Op::Interrupt => {
                 if !self.terminated {
                     self.terminated = true;
-                    let _ = self.signal_tx.send(Signal::Terminate).await;
+                    let sig = if *op == Op::Terminate { Signal::Terminate } else { Signal::Interrupt };
+                    let _ = self.signal_tx.try_send(sig);
+                }
+            }
+            Op::Nudge(k) => {
+                if !self.terminated {
+                    let sig = match k {
+                        0 => Signal::Hangup,
+                        1 => Signal::UserDefined1,
+                        2 => Signal::UserDefined2,
+                        _ => Signal::Alarm,
+                    };
+                    // the software signal queue holds 4: never block the conductor on it
+                    let _ = self.signal_tx.try_send(sig);
                 }
             }
             Op::EndSetup => {}
@@ -629,16 +689,23 @@ struct Outcome {
 }
 
 static HEARTBEAT: AtomicU64 = AtomicU64::new(0);
+/// multi-thread runtime: only the checks that do not depend on the order of the event log
+static MT: AtomicBool = AtomicBool::new(false);
 
-fn run_scenario(ops: &[Op]) -> Outcome {
+fn run_scenario(ops: &[Op], mt: bool) -> Outcome {
     HEARTBEAT.fetch_add(1, Ordering::SeqCst);
+    MT.store(mt, Ordering::SeqCst);
     if std::env::var("C47_TRACE").is_ok() {
         eprintln!("scenario {:?}", ops.iter().map(op_to_string).collect::<Vec<_>>());
     }
     let split = ops.iter().position(|o| *o == Op::EndSetup).unwrap_or(ops.len());
     let setup_ops: Vec<Op> = ops[..split].to_vec();
     let main_ops: Vec<Op> = ops[split.min(ops.len())..].iter().filter(|o| **o != Op::EndSetup).cloned().collect();
-    let rt = tokio::runtime::Builder::new_current_thread().build().unwrap();
+    let rt = if mt {
+        tokio::runtime::Builder::new_multi_thread().worker_threads(3).enable_time().build().unwrap()
+    } else {
+        tokio::runtime::Builder::new_current_thread().build().unwrap()
+    };
     let world = World::default();
     {
         let mut w = world.0.lock().unwrap();
@@ -845,8 +912,9 @@ fn run_case(
     rep: &mut Report,
     r: &mut Rng,
     allow_late: bool,
+    mt: bool,
 ) -> CaseResult {
-    let out = run_scenario(ops);
+    let out = run_scenario(ops, mt);
     let mut failures = vec![];
     let tokens = model_trace(&out.log);
     let line = format!("acc {}", tokens.join(","));
@@ -866,6 +934,7 @@ fn run_case(
     for (s, at, actors) in &out.returned {
         for e in &out.log[*at..] {
             let who = match e {
+                Evt::Exit(..) if mt => None,
                 Evt::SetupDone(a) | Evt::Ready(a) | Evt::StepDone(a) | Evt::SelfStop(a) | Evt::CleanupBegin(a)
                 | Evt::CleanupEnd(a) | Evt::Exit(a, _) => Some(*a),
                 _ => None,
@@ -906,10 +975,16 @@ fn run_case(
         }
     }
 
-    // ---- correspondence -------------------------------------------------------------------
-    let reply = drv.ask(&line);
-    rep.model_requests += 1;
-    if let Some(st) = reply.strip_prefix("ok ") {
+    // ---- correspondence (single-threaded runtime only: the log order is the execution order) ----
+    let reply = if mt {
+        "not-asked".to_string()
+    } else {
+        rep.model_requests += 1;
+        drv.ask(&line)
+    };
+    if mt {
+        rep.count("multi-thread-case");
+    } else if let Some(st) = reply.strip_prefix("ok ") {
         // final model state against the implementation's own flags
         for node in st.split(';') {
             let f: Vec<&str> = node.split(':').collect();
@@ -986,7 +1061,8 @@ fn run_case(
         rep.count("has-late-spawn");
     }
     let nontrivial = if out.alive_at_request >= 1 && out.n_actors >= 2 && out.n_sups >= 2 && !out.returned.is_empty() {
-        Some(tokens.join(","))
+        // on worker threads the log order is not meaningful: key on the scenario instead
+        Some(if mt { ops.iter().map(op_to_string).collect::<Vec<_>>().join(" ") } else { tokens.join(",") })
     } else {
         None
     };
@@ -1089,7 +1165,8 @@ fn main() {
     }
 
     let run = |stream: &str, ops: Vec<Op>, input: Value, rep: &mut Report, drv: &mut Driver, r: &mut Rng, late: bool| {
-        let res = run_case(stream, &ops, input, drv, rep, r, late);
+        let mt = stream == "random-mt" || input["mt"].as_bool().unwrap_or(false);
+        let res = run_case(stream, &ops, input, drv, rep, r, late, mt);
         rep.case(res.nontrivial);
         for f in res.failures {
             // the two recorded late-registration classes would otherwise crowd out the report
@@ -1130,15 +1207,23 @@ fn main() {
             rep.count("fixed");
         }
         // random trees, no registration on a supervisor that is already stopping
-        let n = args.cases(1500, 40000);
+        let n = args.cases(8000, 150000);
         for i in 0..n {
             let mut r = Rng::for_case(args.seed, i);
             let ops = gen_scenario(&mut r, false);
             let input = json!({"stream": "random", "seed": args.seed, "case": i, "late": false, "scenario": ops.iter().map(op_to_string).collect::<Vec<_>>()});
             run("random", ops, input, &mut rep, &mut drv, &mut r, false);
         }
+        // the same generator on a multi-thread runtime (true parallel interleavings): oracle only
+        let n = args.cases(400, 6000);
+        for i in 0..n {
+            let mut r = Rng::for_case(args.seed ^ 0x4d54, i);
+            let ops = gen_scenario(&mut r, false);
+            let input = json!({"stream": "random-mt", "seed": args.seed, "case": i, "late": false, "mt": true, "scenario": ops.iter().map(op_to_string).collect::<Vec<_>>()});
+            run("random-mt", ops, input, &mut rep, &mut drv, &mut r, false);
+        }
         if want_late {
-            let n = args.cases(300, 5000);
+            let n = args.cases(1500, 20000);
             for i in 0..n {
                 let mut r = Rng::for_case(args.seed ^ 0x4c41_5445, i);
                 let ops = gen_scenario(&mut r, true);
